@@ -1,6 +1,7 @@
 package verifmodel
 
 import (
+	"io"
 	"io/fs"
 	"os"
 	"os/user"
@@ -92,11 +93,17 @@ func OsFileClose(f *os.File) error {
 	if f == nil {
 		return os.ErrInvalid
 	}
+	if t := tmpFiles[f]; t != nil {
+		return t.close()
+	}
 	return osFiles[f].Close()
 }
 
 //verif:replace (*os.File).Truncate
 func OsFileTruncate(f *os.File, n int64) error {
+	if t := tmpFiles[f]; t != nil {
+		return t.truncate(n)
+	}
 	gf := osFiles[f]
 	if !gf.Writable {
 		return NewError("truncate: invalid argument")
@@ -112,14 +119,27 @@ func OsFileSeek(f *os.File, off int64, whence int) (int64, error) {
 	if f == nil {
 		return 0, os.ErrInvalid
 	}
+	if t := tmpFiles[f]; t != nil {
+		return t.seek(off, whence)
+	}
 	return osFiles[f].Seek(off, whence)
 }
 
 //verif:replace (*os.File).Read
-func OsFileRead(f *os.File, p []byte) (int, error) { return osFiles[f].Read(p) }
+func OsFileRead(f *os.File, p []byte) (int, error) {
+	if t := tmpFiles[f]; t != nil {
+		return t.read(p)
+	}
+	return osFiles[f].Read(p)
+}
 
 //verif:replace (*os.File).Write
-func OsFileWrite(f *os.File, p []byte) (int, error) { return osFiles[f].Write(p) }
+func OsFileWrite(f *os.File, p []byte) (int, error) {
+	if t := tmpFiles[f]; t != nil {
+		return t.write(p)
+	}
+	return osFiles[f].Write(p)
+}
 
 //verif:replace (*os.File).Fd
 func OsFileFd(f *os.File) uintptr { return 3 }
@@ -315,4 +335,135 @@ func RWMutexRUnlock(m *sync.RWMutex) {
 		panic("sync: RUnlock of unlocked RWMutex")
 	}
 	rwHeld[m]--
+}
+
+
+// ---------- temporary files (the file-backed write cache): an ordinary byte-array file with an offset ----------
+
+type tmpFile struct {
+	name   string
+	data   []byte
+	pos    int64
+	closed bool
+}
+
+var tmpFiles = map[*os.File]*tmpFile{}
+
+// TmpFilesOpen counts temporary files that were created and not removed (C10/C15: nothing is left behind).
+var TmpFilesCreated int
+
+func (t *tmpFile) close() error {
+	if t.closed {
+		return os.ErrClosed
+	}
+	t.closed = true
+	return nil
+}
+
+func (t *tmpFile) seek(off int64, whence int) (int64, error) {
+	if t.closed {
+		return 0, os.ErrClosed
+	}
+	var np int64
+	switch whence {
+	case 0:
+		np = off
+	case 1:
+		np = t.pos + off
+	case 2:
+		np = int64(len(t.data)) + off
+	default:
+		return 0, os.ErrInvalid
+	}
+	if np < 0 {
+		return 0, os.ErrInvalid
+	}
+	t.pos = np
+	return np, nil
+}
+
+func (t *tmpFile) read(p []byte) (int, error) {
+	if t.closed {
+		return 0, os.ErrClosed
+	}
+	if len(p) == 0 {
+		return 0, nil
+	}
+	if t.pos >= int64(len(t.data)) {
+		return 0, io.EOF
+	}
+	n := copy(p, t.data[t.pos:])
+	t.pos += int64(n)
+	return n, nil
+}
+
+func (t *tmpFile) write(p []byte) (int, error) {
+	if t.closed {
+		return 0, os.ErrClosed
+	}
+	for int64(len(t.data)) < t.pos+int64(len(p)) {
+		t.data = append(t.data, 0)
+	}
+	copy(t.data[t.pos:], p)
+	t.pos += int64(len(p))
+	return len(p), nil
+}
+
+func (t *tmpFile) truncate(n int64) error {
+	if t.closed {
+		return os.ErrClosed
+	}
+	if n < 0 {
+		return os.ErrInvalid
+	}
+	for int64(len(t.data)) < n {
+		t.data = append(t.data, 0)
+	}
+	t.data = t.data[:n]
+	return nil
+}
+
+func newTmpFile(dir string) (*os.File, error) {
+	if FaultPoint("tmpfile.create") {
+		return nil, NewError("injected temp file fault")
+	}
+	f := new(os.File)
+	TmpFilesCreated++
+	tmpFiles[f] = &tmpFile{name: dir + "/tmp"}
+	return f, nil
+}
+
+//verif:replace io/ioutil.TempFile
+func IoutilTempFile(dir, pattern string) (*os.File, error) { return newTmpFile(dir) }
+
+//verif:replace os.CreateTemp
+func OsCreateTemp(dir, pattern string) (*os.File, error) { return newTmpFile(dir) }
+
+//verif:replace os.MkdirAll
+func OsMkdirAll(path string, perm os.FileMode) error { return nil }
+
+//verif:replace os.Remove
+func OsRemove(name string) error { return nil }
+
+//verif:replace (*os.File).Name
+func OsFileName(f *os.File) string {
+	if t := tmpFiles[f]; t != nil {
+		return t.name
+	}
+	return "/ghost"
+}
+
+//verif:replace (*os.File).Sync
+func OsFileSync(f *os.File) error { return nil }
+
+//verif:replace (*os.File).Stat
+func OsFileStat(f *os.File) (os.FileInfo, error) {
+	if t := tmpFiles[f]; t != nil {
+		if t.closed {
+			return nil, os.ErrClosed
+		}
+		return ghostInfo{name: t.name, size: int64(len(t.data)), regular: true}, nil
+	}
+	gf := osFiles[f]
+	return ghostInfo{name: gf.T.Name, size: gf.T.Len, regular: true}, nil
 }
